@@ -200,6 +200,11 @@ impl ModelSpec {
 pub fn build_model<T: Sc>(spec: &ModelSpec, alpha0: &[f64]) -> SeparableModel<T> {
     let names = spec.names();
     let mut b = SeparableModelBuilder::<T>::new(names.clone());
+    // every third specification gives the builder a decoy grid first (same length, other values): the
+    // independent variable may be supplied more than once and the last one counts
+    if crate::rng::hash_u64s([spec.x.len() as u64, spec.np as u64, spec.basis.len() as u64]) % 3 == 0 {
+        b = b.independent_variable(dvec::<T>(&spec.x.iter().map(|v| 0.5 * v + 1.25).collect::<Vec<f64>>()));
+    }
     for basis in &spec.basis {
         let ps = basis.params();
         let fnames: Vec<String> = ps.iter().map(|p| names[*p].clone()).collect();
